@@ -212,7 +212,13 @@ func (f *DB) Reload(path string, validationKey []byte, reloadTimeout time.Durati
 
 		// Validate newDBI
 		newDB := &DB{dbi: newDBI}
-		err = newDB.validateDbKeyOrDestroy(validationKey)
+		if newDBI == f.dbi {
+			// the backend was reloaded in place and is still the one being served (and
+			// possibly held by readers): validate it without destroying it
+			err = f.ValidateDbKey(validationKey)
+		} else {
+			err = newDB.validateDbKeyOrDestroy(validationKey)
+		}
 		if err != nil {
 			glog.Errorf("Key validation for New DBI failed, using old DB instead")
 			return f, err
